@@ -88,6 +88,9 @@ type pxHooks struct {
 	// the exits are reached with facts that hold for ANY iteration.  Meant for
 	// search loops without events (nil: never).
 	havoc func(fr *pxFrame, lp *loopInfo) bool
+	// prune ends the current path silently when a block is entered (the rule has
+	// already decided everything it wants to know about paths with this prefix).
+	prune func(fr *pxFrame, b *ssa.BasicBlock, st *pxState) bool
 }
 
 type PX struct {
@@ -105,6 +108,8 @@ type PX struct {
 	havocked  map[string]*loopInfo // frame id + header index -> loop summarised on some path
 	modCache  map[*ssa.Function]map[string]bool
 	extraPure map[string]bool // further callees whose results are functions of their arguments for this exploration
+	// header φ registers that keep their back-edge value in the second generic iteration of a summarised loop
+	rememberedNow map[string]bool
 	// views: slices of slices / strings are terms view(root, lo, hi) with symbolic
 	// bounds, and len of a view is hi-lo (see pxviews.go); off by default.
 	views bool
@@ -265,6 +270,10 @@ func (p *PX) term(v ssa.Value, fr *pxFrame, st *pxState) *Term {
 				}
 			}
 			if ia, ok := x.X.(*ssa.IndexAddr); ok {
+				// element of a package-level lookup table that is constant after initialisation
+				if t := p.tableLoad(ia, v.Type(), fr, st); t != nil {
+					return t
+				}
 				// element of a symbolic byte sequence
 				if bs := p.byteSeqOf(ia.X, fr, st); bs != nil {
 					if it := p.term(ia.Index, fr, st); it.K == TConst && it.C.IsInt64() {
@@ -322,6 +331,11 @@ func (p *PX) term(v ssa.Value, fr *pxFrame, st *pxState) *Term {
 		if p.views {
 			return p.sliceView(x, fr, st)
 		}
+		// `arr[:]` of a local array (a composite literal of slices / strings / structs):
+		// the same cells as the array, so element stores and loads meet under one key
+		if al, ok := wholeLocalArray(x); ok {
+			return p.term(al, fr, st)
+		}
 	case *ssa.Call:
 		if t, ok := st.vals[p.reg(fr, v)]; ok {
 			return t
@@ -336,7 +350,13 @@ func (p *PX) term(v ssa.Value, fr *pxFrame, st *pxState) *Term {
 				return p.term(ms.Len, fr, st)
 			}
 			a := p.term(c.Args[0], fr, st)
-			if ml, ok := st.vals["mklen:"+a.key]; ok && p.views {
+			if al, ok := a.V.(*ssa.Alloc); ok && a.K == TLeaf && !p.views {
+				if n, ok := localArrayLen(al); ok && isSliceOrArrayPtr(c.Args[0].Type()) {
+					nb := big.NewInt(n)
+					return &Term{K: TConst, C: nb, T: v.Type(), key: nb.String()}
+				}
+			}
+			if ml, ok := st.vals["mklen:"+a.key]; ok && (p.views || ml.K == TConst) {
 				return ml // a slice made on this path: the length it was made with
 			}
 			return p.lenTerm(a, v.Type())
@@ -448,6 +468,9 @@ func (p *PX) block(fr *pxFrame, b *ssa.BasicBlock, pred *ssa.BasicBlock, st *pxS
 		p.Truncated = true
 		return
 	}
+	if p.hooks.prune != nil && p.hooks.prune(fr, b, st) {
+		return
+	}
 	bk := fmt.Sprintf("x:%s%d", fr.id, b.Index)
 	// φ-nodes: resolved by the edge taken (simultaneous assignment)
 	var phiVals []*Term
@@ -502,6 +525,14 @@ func (p *PX) block(fr *pxFrame, b *ssa.BasicBlock, pred *ssa.BasicBlock, st *pxS
 	}
 	if p.hooks.havoc != nil && pred != nil {
 		for _, lp := range p.loopsOf(fr.fn) {
+			if hk := fmt.Sprintf("%s%d", fr.id, b.Index); lp.header == b && lp.body[pred] && st.visits["hv2:"+hk] == 1 {
+				// second generic iteration (see enter): φ-nodes were just resolved by the
+				// back edge; everything but the remembered counters is made fresh again
+				st.visits["hv2:"+hk] = 2
+				p.havocLoopKeep(fr, lp, st, p.rememberedNow)
+				p.rememberedNow = nil
+				continue
+			}
 			if lp.header == b && !lp.body[pred] && p.hooks.havoc(fr, lp) {
 				p.havocLoop(fr, lp, st)
 				if p.havocked == nil {
@@ -533,9 +564,9 @@ func (p *PX) instrs(fr *pxFrame, b *ssa.BasicBlock, from int, st *pxState, k pxC
 		}
 		switch x := in.(type) {
 		case *ssa.MakeSlice:
-			if p.views {
+			if lt := p.term(x.Len, fr, st); p.views || lt.K == TConst {
 				// the length the slice is made with, as of now
-				st.vals["mklen:"+p.term(x, fr, st).key] = p.term(x.Len, fr, st)
+				st.vals["mklen:"+p.term(x, fr, st).key] = lt
 			}
 		case *ssa.UnOp:
 			if x.Op == token.MUL {
@@ -548,20 +579,33 @@ func (p *PX) instrs(fr *pxFrame, b *ssa.BasicBlock, from int, st *pxState, k pxC
 			if al, ok := x.Addr.(*ssa.Alloc); ok {
 				st.vals[p.reg(fr, al)+"*"] = p.term(x.Val, fr, st)
 			}
+			p.structStore(x, st)
 			if fa, ok := x.Addr.(*ssa.FieldAddr); ok {
 				vt := p.term(x.Val, fr, st)
 				if al, isLocal := fa.X.(*ssa.Alloc); isLocal {
 					st.vals[fmt.Sprintf("%s.%d", p.reg(fr, al), fa.Field)] = vt
 				}
 				p.bumpField(fieldID(fa), st)
-				if vt.K == TPure && vt.Name == "append" {
+				// the value stays readable under the field's NEW version: any later store to
+				// this field of any object of the type (direct, in a summarised loop, or by a
+				// callee that is not stepped into) advances the version, so a load finds the
+				// value only while nothing can have overwritten it — whichever frame holds
+				// the pointer (struct-carried state handed to helpers by address)
+				if p.fieldCellTracked(fa, vt, fr, st) {
 					st.vals["mem:"+p.fieldLoadKey(fa, fr, st)] = vt
 				}
 				st.trace = append(st.trace, pxEvent{Kind: "fieldstore", Frame: fr, Args: []*Term{vt}, Env: st.env, Pos: p.w.instrPos(x), Extra: fieldID(fa)})
 			}
 			if ia, ok := x.Addr.(*ssa.IndexAddr); ok && !isByteSlice(ia.X.Type()) {
 				if _, isArr := isByteArrayPtr(ia.X.Type()); !isArr {
-					st.vals["mem:"+p.term(ia, fr, st).key] = p.term(x.Val, fr, st)
+					ck := "mem:" + p.term(ia, fr, st).key
+					st.vals[ck] = p.term(x.Val, fr, st)
+					// a []byte kept in a cell of a [][]byte: its octets travel with the cell
+					if bs := p.byteSeqOf(x.Val, fr, st); bs != nil && isByteSlice(x.Val.Type()) {
+						st.bseq[ck] = bs
+					} else {
+						delete(st.bseq, ck)
+					}
 				}
 			}
 			p.byteStore(x, fr, st)
@@ -574,6 +618,7 @@ func (p *PX) instrs(fr *pxFrame, b *ssa.BasicBlock, from int, st *pxState, k pxC
 			}
 		case *ssa.Call:
 			p.byteCall(x, fr, st)
+			p.appendCells(x, fr, st)
 			sc := x.Call.StaticCallee()
 			if sc == nil || !stepIn {
 				if sc != nil {
@@ -641,6 +686,20 @@ func (p *PX) instrs(fr *pxFrame, b *ssa.BasicBlock, from int, st *pxState, k pxC
 			p.cur, p.curFrame = st, fr
 			te, tok := p.f.refine(st.env, c, true)
 			fe, fok := p.f.refine(st.env, c, false)
+			if tte, tfe, isTab := p.tableCond(c, st.env); isTab {
+				// `if table[i]` on a constant boolean table: facts about the index
+				te, tok, fe, fok = tte, tte != nil, tfe, tfe != nil
+				if !tok {
+					te = st.env
+				}
+				if !fok {
+					fe = st.env
+				}
+			}
+			if isNil, known := p.nilTest(c); known {
+				// `err != nil` on a value the path built with a constructor that never returns nil
+				tok, fok = tok && isNil, fok && !isNil
+			}
 			if v, ok := st.env[c.key]; ok && len(v) == 1 && v[0].Lo.Cmp(v[0].Hi) == 0 {
 				if v[0].Lo.Sign() == 0 {
 					tok = false
@@ -674,7 +733,17 @@ func (p *PX) enter(fr *pxFrame, from, to *ssa.BasicBlock, st *pxState, k pxCont,
 	key := fmt.Sprintf("%s%d", fr.id, to.Index)
 	if st.visits["hv:"+key] > 0 {
 		if lp := p.havocked[key]; lp != nil && lp.body[from] {
-			return // summarised loop: the single symbolic iteration stands for all of them
+			// summarised loop: the single symbolic iteration stands for all of them —
+			// except that a variable which REMEMBERS the counter of that iteration
+			// (`if match(t[i]) { found = i }`) leaves the loop holding it: the header is
+			// entered once more with that variable bound to the generic iteration's
+			// counter (and the facts the body established about it), the counters made
+			// fresh again; the exits taken from there stand for "assigned in some iteration"
+			if st.visits["hv2:"+key] == 0 && len(p.rememberedCounters(fr, lp, from, st)) > 0 {
+				st.visits["hv2:"+key] = 1
+				p.block(fr, to, from, st, k)
+			}
+			return
 		}
 	}
 	if !decided {
@@ -699,11 +768,21 @@ func (p *PX) lenTerm(a *Term, t types.Type) *Term {
 	if a.K == TPure && a.Name == "append" && len(a.Args) == 2 && a.Args[1].K == TConst {
 		inner := p.lenTerm(a.Args[0], t)
 		k := a.Args[1]
+		if inner.K == TConst {
+			// a slice made with a constant length and appended to: the length is a number
+			sum := new(big.Int).Add(inner.C, k.C)
+			return &Term{K: TConst, C: sum, T: t, key: sum.String()}
+		}
 		return &Term{K: TBin, Op: token.ADD, A: inner, B: &Term{K: TConst, C: k.C, T: t, key: k.key}, T: t, key: "(" + inner.key + " + " + k.key + ")"}
 	}
 	// len(v.MapKeys()) is v.Len()
 	if a.K == TPure && a.Name == "(reflect.Value).MapKeys" && len(a.Args) == 1 {
 		return &Term{K: TPure, Name: "(reflect.Value).Len", Args: a.Args, T: t, key: "pure:(reflect.Value).Len(" + a.Args[0].key + ")"}
+	}
+	if p.cur != nil && !p.views {
+		if ml, ok := p.cur.vals["mklen:"+a.key]; ok && ml.K == TConst {
+			return &Term{K: TConst, C: ml.C, T: t, key: ml.key}
+		}
 	}
 	return &Term{K: TPure, Name: "len", Args: []*Term{a}, T: t, key: "len(" + a.key + ")"}
 }
@@ -803,6 +882,10 @@ func (p *PX) killBlockDefs(fr *pxFrame, b *ssa.BasicBlock, st *pxState) {
 // havocLoop turns the φ-nodes of the header into fresh symbols and forgets the
 // cells the body assigns.
 func (p *PX) havocLoop(fr *pxFrame, lp *loopInfo, st *pxState) {
+	p.havocLoopKeep(fr, lp, st, nil)
+}
+
+func (p *PX) havocLoopKeep(fr *pxFrame, lp *loopInfo, st *pxState, keep map[string]bool) {
 	p.seq++
 	for _, in := range lp.header.Instrs {
 		phi, ok := in.(*ssa.Phi)
@@ -810,6 +893,15 @@ func (p *PX) havocLoop(fr *pxFrame, lp *loopInfo, st *pxState) {
 			break
 		}
 		reg := p.reg(fr, phi)
+		if keep[reg] {
+			continue
+		}
+		if keep == nil && loopRememberers(lp)[phi] {
+			// a variable that only remembers a counter of this loop: on the first entry
+			// it keeps its initial value ("never assigned"); "assigned in some
+			// iteration" is the second generic iteration (see enter)
+			continue
+		}
 		init := st.vals[reg]
 		fresh := &Term{K: TLeaf, V: phi, T: phi.Type(), key: fmt.Sprintf("<hv%d:%s>", p.seq, reg)}
 		// a counter that only moves one way keeps its initial value as a bound, and
@@ -821,6 +913,7 @@ func (p *PX) havocLoop(fr *pxFrame, lp *loopInfo, st *pxState) {
 						st.env[fresh.key] = top.Intersect(ISet{{is.Min(), new(big.Int).Sub(top.Max(), big.NewInt(step))}})
 					} else {
 						st.env[fresh.key] = top.Intersect(ISet{{new(big.Int).Sub(top.Min(), big.NewInt(step)), is.Max()}})
+						p.downCounterBounds(fresh, init, st)
 					}
 				}
 			}
